@@ -326,6 +326,9 @@ def run(ctx):
                             "stale_chunks": sorted(e["name"] for e in t["dirty"]["listing"] if e["kind"] == "chunk")})
             else:
                 ctx.reject({"cli": cli[i - len(scenarios)], "trace": t}, v["failed"], {"api": "cli_verify_pin", "case": i - len(scenarios)})
+    ctx.phase("hook_traces")
+    from drivers import hooktrace
+    hooktrace.validate_events(ctx, hooktrace.traced_repo_tests(hooktrace.REPO_TESTS[4:5] if ctx.quick else hooktrace.REPO_TESTS[4:]), "C09")
     ctx.phase("negative_controls")
     bad = []
     for t in traces:
